@@ -181,6 +181,23 @@ def run(ctx):
              "fromJson computes the size of a %s as the %s, addField as the %s: a %s extended with addField changes its bytes() when it goes through toJson / fromJson" %
              (kind, "/".join(sorted(read)) or "?", "/".join(sorted(built[kind])) or "?", kind))
 
+    # every composite writes its own kind tag on every path: a reader can only restore the kind it is told
+    for cls in ("dtypeStruct_t", "dtypeUnion_t", "dtypeTuple_t"):
+        f = [x for x in prog.fns(D + cls + "::toJson")][0]
+        tagw = [n for (m_, n) in json_keys(f).get("type", []) if m_ == "w"]
+        if not tagw:
+            R.ob("C11-R1", False, f.q, "tag:written on every path", "%s:%d" % (f.relfile, f.d["line"]), "the kind tag is never written")
+            continue
+        stmt = tagw[0]
+        for a_ in f.ancestors(tagw[0]):
+            if a_["k"] == "CXXOperatorCallExpr" and a_.get("op") == "=":
+                stmt = a_
+                break
+        pth = f.cfg.find_path((f.cfg.entry, 0), "exit", lambda b, i, e: e == stmt["i"] or e == tagw[0]["i"], start_after=False)
+        R.ob("C11-R1", pth is None, f.q, "tag:written on every path", f.site(stmt),
+             "no exit without j[\"type\"]" if pth is None else
+             "a path leaves %s::toJson without writing its kind tag (the value is written as something else): fromJson restores another kind - tuple(T, 1) comes back as T" % cls, path=pth)
+
     # ---- R3 -----------------------------------------------------------------------
     for cls in ("dtypeStruct_t", "dtypeUnion_t"):
         f = [x for x in prog.fns(D + cls + "::toJson")][0]
